@@ -17,6 +17,7 @@ from typing import Any
 
 from detsim import env, gen, parseop, rng, simfs
 from detsim.observe import exc_token, observe_chart
+from detsim.runner import Discard
 
 PROP = "C06"
 LEVEL = "exploration"
@@ -37,8 +38,10 @@ ASSUMPTIONS = [
 ]
 UNKNOWN_NAMES = ["Foo", "PART VOCALS", "ExpertSingleX", "expertsingle", "Song2", "Events2",
                  "ExpertGuitar", "Sync Track"]
+# body lines are rendered indented, so "}" / "{" / "[Song]" below are NOT the bare structural
+# lines of the format but ordinary (unparsable) content of the unknown section
 UNKNOWN_BODY = ["0 = N 0 0", "junk", "x = y", '100 = E "hello"', "", "0 = B 120000",
-                "Resolution = 1", "   ", "0 = S 2 100", "née 歌"]
+                "Resolution = 1", "   ", "0 = S 2 100", "née 歌", "}", "{", "[Song]", "[ExpertSingle]"]
 
 
 # ----------------------------------------------------------------------------------------------
@@ -86,6 +89,16 @@ def make_plan(seed: int, tier: str, index: int) -> dict[str, Any]:
         small = g.random() < 0.6
     doc = gen.gen_doc(g, headers=headers, small=small)
     doc["unknown"] = []
+    # sections with identical or empty bodies are legal and make header->key mix-ups visible
+    # that distinct contents would hide
+    if len(doc["tracks"]) >= 2:
+        x = g.random()
+        if x < 0.2:
+            i, j = g.sample(range(len(doc["tracks"])), 2)
+            doc["tracks"][j] = [doc["tracks"][j][0]] + [list(v) for v in doc["tracks"][i][1:]]
+        elif x < 0.3:
+            for j in g.sample(range(len(doc["tracks"])), 2):
+                doc["tracks"][j] = [doc["tracks"][j][0], [], [], []]
     secs = gen.sections(doc)
     n = len(secs)
     variants = []
@@ -129,38 +142,38 @@ def make_plan(seed: int, tier: str, index: int) -> dict[str, Any]:
 # ----------------------------------------------------------------------------------------------
 
 def expected_model(doc: dict[str, Any]) -> dict[str, Any]:
+    """What the harness knows without consulting chartparse: which keys must exist and how each
+    is labelled.  Content is judged *relative to the same code* (each section parsed alone), so
+    that a defect in the instrument/metadata/event parsers themselves (other properties) is never
+    reported as a routing violation."""
     tracks = {}
-    for header, groups, sp, ev in doc["tracks"]:
+    for header, _groups, _sp, _ev in doc["tracks"]:
         inst, diff = gen.HEADERS[header]
-        notes = []
-        for gr in groups:
-            bits = [0] * 5
-            if gr["lanes"] != "open":
-                for ln in gr["lanes"]:
-                    bits[ln] = 1
-            notes.append([gr["tick"], bits])
-        tracks[f"{inst}/{diff}"] = {"header": header, "notes": notes,
-                                    "sp": sorted([list(x) for x in sp], key=lambda x: x[0]),
-                                    "ev": sorted([list(x) for x in ev], key=lambda x: x[0])}
-    ev_by_kind: dict[str, list[Any]] = {"text": [], "section": [], "lyric": []}
-    for tick, kind, val in doc["events"]:
-        ev_by_kind[kind].append([tick, val])
-    meta = {}
-    for pas, val in doc["meta"]:
-        snake, kind = next((s, k) for p_, s, k in gen.META_FIELDS if p_ == pas)
-        if kind == "int":
-            meta[snake] = int(val)
-        elif kind == "p2":
-            meta[snake] = val.upper()
-        else:
-            meta[snake] = val[1:-1]
-    return {"tracks": tracks, "events": ev_by_kind, "meta": meta,
-            "bpm_ticks": [t for t, _ in doc["tempos"]],
-            "ts": [[t, u] for t, u, _ in doc["tsigs"]],
-            "anchor_ticks": [t for t, _ in doc["anchors"]]}
+        tracks[f"{inst}/{diff}"] = {"header": header}
+    return {"tracks": tracks}
 
 
-def check_routing(obs: dict[str, Any], model: dict[str, Any]) -> tuple[str, str] | None:
+def isolated_track_digests(doc: dict[str, Any]) -> dict[str, str]:
+    """key -> digest of the track obtained when its section is the only instrument section."""
+    from detsim import world
+
+    secs = gen.sections(doc)
+    out = {}
+    for sec in secs[3:]:
+        header = sec[0]
+        inst, diff = gen.HEADERS[header]
+        key = f"{inst}/{diff}"
+        try:
+            chart = world.parse_text(gen.render_sections(secs[:3] + [sec]))
+            obs = observe_chart(chart, ordered=False)
+            out[key] = rng.digest(obs["tracks"].get(key))
+        except Exception as e:  # noqa: BLE001
+            out[key] = "exc:" + type(e).__name__
+    return out
+
+
+def check_routing(obs: dict[str, Any], model: dict[str, Any],
+                  iso: dict[str, str] | None = None) -> tuple[str, str] | None:
     want_keys = sorted(model["tracks"])
     got_keys = sorted(obs["tracks"])
     if want_keys != got_keys:
@@ -171,26 +184,10 @@ def check_routing(obs: dict[str, Any], model: dict[str, Any]) -> tuple[str, str]
             return "routing-label", f"track stored under {key} is labelled {t['instrument']}/{t['difficulty']}"
         if t["header_tag"] != m["header"]:
             return "routing-label", f"track {key} reports header_tag {t['header_tag']!r}, file says {m['header']!r}"
-        notes = [[n[0], n[4]] for n in t["notes"]]
-        if notes != m["notes"]:
-            return "routing-content", f"track {key}: notes {notes[:6]} but its section holds {m['notes'][:6]}"
-        if [[e[0], e[2]] for e in t["sp"]] != m["sp"]:
-            return "routing-content", f"track {key}: star power {[[e[0], e[2]] for e in t['sp']]} != {m['sp']}"
-        if [[e[0], e[2]] for e in t["ev"]] != m["ev"]:
-            return "routing-content", f"track {key}: track events {[[e[0], e[2]] for e in t['ev']]} != {m['ev']}"
-    for kind in ("text", "section", "lyric"):
-        got = [[e[0], e[2]] for e in obs["globals"][kind]]
-        if got != model["events"][kind]:
-            return "routing-content", f"[Events] {kind}: {got[:6]} != {model['events'][kind][:6]}"
-    if [e[0] for e in obs["sync"]["bpm"]] != model["bpm_ticks"]:
-        return "routing-content", "[SyncTrack] tempo ticks differ from the section"
-    if [[e[0], e[2]] for e in obs["sync"]["ts"]] != model["ts"]:
-        return "routing-content", "[SyncTrack] time signatures differ from the section"
-    if [e[0] for e in obs["sync"]["anchors"]] != model["anchor_ticks"]:
-        return "routing-content", "[SyncTrack] anchors differ from the section"
-    for k, v in model["meta"].items():
-        if obs["meta"].get(k) != v:
-            return "routing-content", f"[Song] field {k}: {obs['meta'].get(k)!r} != {v!r}"
+        if iso is not None and rng.digest(t) != iso[key]:
+            return "routing-content", (f"track {key} differs from the track parsed from section "
+                                       f"[{m['header']}] alone: the section's body lines did not reach "
+                                       "(only) this track")
     return None
 
 
@@ -235,12 +232,17 @@ def execute(plan: dict[str, Any]) -> dict[str, Any]:
         # canonical variant: LF, no BOM, canonical order, StringIO
         canon_text = gen.render(doc)
         world.drain_log()
-        canon = world.parse_text(canon_text)
+        try:
+            canon = world.parse_text(canon_text)
+        except Exception as e:  # noqa: BLE001
+            raise Discard("canonical-variant-rejected:" + type(e).__name__) from e
         canon_log = world.drain_log()
         canon_obs = observe_chart(canon, ordered=False)
         canon_digest = rng.digest(canon_obs)
         canon_track_log = sorted(r for r in canon_log if r[0] != "chartparse.chart")
-        bad = check_routing(canon_obs, model)
+        iso = isolated_track_digests(doc)
+        world.drain_log()
+        bad = check_routing(canon_obs, model, iso)
         if bad:
             violations.append({"sig": f"C06/{bad[0]}/canonical/-", "detail": "canonical variant: " + bad[1]})
         if any(r[0] == "chartparse.chart" for r in canon_log):
@@ -317,6 +319,25 @@ def execute(plan: dict[str, Any]) -> dict[str, Any]:
                 violations.append({"sig": f"C06/invariance/{dim}/warnings",
                                    "detail": f"variant {vi} ({dim}): line warnings differ from the "
                                              "canonical variant (an unknown section's body was parsed?)"})
+        # [Events] feeds the global events (relative): with its body emptied the three lists are
+        # empty and everything else is unchanged
+        secs0 = gen.sections(doc)
+        secs0[2][1] = []
+        try:
+            ce = world.parse_text(gen.render_sections(secs0))
+            oe = observe_chart(ce, ordered=False)
+            if any(oe["globals"][k] for k in ("text", "section", "lyric")):
+                violations.append({"sig": "C06/routing-content/events-emptied/-",
+                                   "detail": "global events remain although the [Events] body is empty"})
+            elif rng.digest([oe["sync"], oe["tracks"], oe["meta"]]) != rng.digest(
+                    [canon_obs["sync"], canon_obs["tracks"], canon_obs["meta"]]):
+                violations.append({"sig": "C06/routing-content/events-emptied/others-changed",
+                                   "detail": "emptying the [Events] body changed metadata, sync track or "
+                                             "instrument tracks"})
+        except Exception as e:  # noqa: BLE001
+            violations.append({"sig": f"C06/routing-content/events-emptied/{type(e).__name__}",
+                               "detail": f"file with an empty [Events] body raised {exc_token(e)}"})
+        world.drain_log()
         # (d) a file lacking a required section
         try:
             world.parse_text(plan["missing"]["text"], newline=None)
@@ -347,7 +368,7 @@ def execute(plan: dict[str, Any]) -> dict[str, Any]:
     return {
         "violations": violations[:4],
         "digest": ev.hexdigest()[:32],
-        "evals": len(plan["variants"]) + 2,
+        "evals": len(plan["variants"]) + 3 + len(doc["tracks"]),
         "nontrivial": nontrivial,
         "faults_fired": {k: v for k, v in fired.items() if k in (
             "short_read", "eintr", "eio", "split_crlf", "split_bom", "split_multibyte", "forced_split")},
